@@ -1,9 +1,9 @@
 #!/usr/bin/env python3
 """run_benign_all.py [patch-name ...]: every benign variant x every property check must stay silent."""
 import sys, os, glob, subprocess, tempfile, shutil, json, concurrent.futures
-props = ['C%02d' % i for i in range(1, 21)]
+props = os.environ.get('PROPS').split(',') if os.environ.get('PROPS') else ['C%02d' % i for i in range(1, 21)]
 names = sys.argv[1:]
-patches = [p for p in sorted(glob.glob('/verif/variants/benign/*.patch')) if not names or os.path.basename(p)[:-6] in names]
+patches = [p for p in sorted(glob.glob(os.environ.get('BENIGN_DIR','/verif/variants/benign')+'/*.patch')) if not names or os.path.basename(p)[:-6] in names]
 base = tempfile.mkdtemp(prefix='otpsa-benign-')
 def prep(patch):
     d = tempfile.mkdtemp(dir=base); cp = os.path.join(d, 'repo')
